@@ -5,10 +5,10 @@
 (*          [rec = "enum", accepted, enum, members: Seq([name, val]), roundtrip: Seq(name), texts, results: Seq(name)] *)
 EXTENDS Sdk, Json, IOUtils
 Obs == JsonDeserialize(IOEnv.VERIF_OBS)
-VARIABLE i
-Init == i \in 1..Len(Obs)
-Next == UNCHANGED i
-Rec == Obs[i]
+\* (the record itself is the state, see SdkTrace)
+VARIABLE Rec
+Init == Rec \in ToSet(Obs)
+Next == UNCHANGED Rec
 ToSetOf(s) == {s[q] : q \in 1..Len(s)}
 
 \* every primitive constant is exposed with its exact value
